@@ -371,6 +371,21 @@ func vRun(t *testing.T, sc *vScenario, opt vRunOpts) *vRunResult {
 		res.skipped = true
 		return res
 	}
+	// VERIF_ONLY=<scenario id>: run just that scenario of a driver, with the full trace and logs on stderr
+	if only := os.Getenv("VERIF_ONLY"); only != "" {
+		if only != sc.ID {
+			res.skipped = true
+			return res
+		}
+		opt.keepTrace, opt.keepLog = true, true
+		defer func() {
+			vDebugDump(res)
+			for h, l := range res.logs {
+				fmt.Fprintln(os.Stderr, "=== log of", h)
+				fmt.Fprintln(os.Stderr, l)
+			}
+		}()
+	}
 	defer func() {
 		// goroutines still blocked when the bubble's main goroutine returns make synctest
 		// panic; the run's results are complete at that point, the stragglers are abandoned
@@ -418,22 +433,19 @@ func vRun(t *testing.T, sc *vScenario, opt vRunOpts) *vRunResult {
 				order = append(order, h)
 			}
 		}
+		// every process starts and publishes its first health record before the designated manager
+		// runs its first manager activation (FirstRun -> Manager happens inside one tick)
 		for _, h := range order {
 			if sc.Shape[h].Down || opt.noInstances[h] {
 				continue // the host is gone: its mysync is gone with it
 			}
 			s.startInstance(h)
-			if h == sc.Manager {
-				s.tick(h) // FirstRun -> Manager (lock)
-			}
 		}
 		for _, h := range order {
 			s.health(h)
 		}
 		for _, h := range order {
-			if h != sc.Manager {
-				s.tick(h)
-			}
+			s.tick(h)
 		}
 		// lazy background replication: once per virtual second
 		stopWorld := make(chan struct{})
